@@ -9,6 +9,26 @@ From Verif Require Import Proofs.Utf8Proofs Proofs.SetsProofs Proofs.RefineUtf8 
      Proofs.RefineHost Proofs.RefineMachineBase.
 From Coq Require Import Lia ZifyBool ZifyN ZifyNat.
 
+(* building the relation after a run, the standard's machine being given by its fields *)
+Lemma mk_after inp ov sbase st p e buf a br pw u su sst sbuf sa sbr spw sp :
+  st_map st = sst -> sp = p -> (-1 <= p)%Z ->
+  e = ((0 <=? p)%Z && (n_inp inp <=? p)%Z) ->
+  a = sa -> br = sbr -> pw = spw ->
+  st_rel ov sbase st p buf u (SB.mkM su sst sbuf sa sbr spw sp) ->
+  (e = true -> R u su) ->
+  Rel_after inp ov sbase (mk st p e buf a br pw u) (SB.mkM su sst sbuf sa sbr spw sp).
+Proof.
+  intros H1 H2 H3 H4 H5 H6 H7 H8 H9.
+  constructor; unfold mk; cbn [m_state m_ptr m_eof m_buf m_at m_br m_pw m_url SB.m_state SB.m_pointer SB.m_url].
+  - exact H1.
+  - exact H2.
+  - exact H3.
+  - rewrite points_to_eof_spec. exact H4.
+  - unfold flags_rel. cbn. repeat split; assumption.
+  - exact H8.
+  - exact H9.
+Qed.
+
 Section States.
   Variable idna_raw : str -> str * bool.
   Variable c : cfg.
@@ -29,65 +49,397 @@ Section States.
   Lemma is_some_map' {A B} (f : A -> B) o : is_some (option_map f o) = is_some o.
   Proof. destruct o; reflexivity. Qed.
 
-  (* building the relation after a run, the standard's machine being given by its fields *)
-  Lemma mk_after st p e buf a br pw u su sst sbuf sa sbr spw sp :
-    st_map st = sst -> sp = p -> (-1 <= p)%Z ->
-    e = ((0 <=? p)%Z && (n_inp inp <=? p)%Z) ->
-    a = sa -> br = sbr -> pw = spw ->
-    st_rel (is_some override) sbase st p buf u (SB.mkM su sst sbuf sa sbr spw sp) ->
-    (e = true -> R u su) ->
-    Rel_after inp (is_some override) sbase (mk st p e buf a br pw u) (SB.mkM su sst sbuf sa sbr spw sp).
-  Proof.
-    intros H1 H2 H3 H4 H5 H6 H7 H8 H9.
-    constructor; unfold mk; cbn [m_state m_ptr m_eof m_buf m_at m_br m_pw m_url SB.m_state SB.m_pointer SB.m_url].
-    - exact H1.
-    - exact H2.
-    - exact H3.
-    - rewrite points_to_eof_spec. exact H4.
-    - unfold flags_rel. cbn. repeat split; assumption.
-    - exact H8.
-    - exact H9.
-  Qed.
+  (* linear arithmetic over the pointer, after clearing what [lia] would waste its time on *)
+  Ltac zl :=
+    repeat match goal with
+    | H : ?T |- _ =>
+        lazymatch T with
+        | (_ <= _)%Z => fail
+        | (_ < _)%Z => fail
+        | ((_ <=? _)%Z = _) => fail
+        | _ => clear H
+        end
+    end; lia.
 
   Ltac sb_simpl :=
-    cbn [SB.decrease_pointer SB.increase_pointer SB.set_state SB.set_pointer SB.set_url SB.set_buffer
-         SB.append_to_buffer SB.m_url SB.m_state SB.m_buffer SB.m_pointer SB.m_atSignSeen SB.m_insideBrackets
+    cbv [SB.decrease_pointer SB.increase_pointer SB.set_state SB.set_pointer SB.set_url SB.set_buffer
+         SB.append_to_buffer];
+    cbn [SB.m_url SB.m_state SB.m_buffer SB.m_pointer SB.m_atSignSeen SB.m_insideBrackets
          SB.m_passwordTokenSeen].
   Ltac after :=
     sb_simpl; cbn [out_rel];
-    apply mk_after; [reflexivity | lia | lia | lia | assumption | assumption | assumption
+    apply mk_after; [reflexivity | zl | zl | zl | assumption | assumption | assumption
                     | cbn [st_rel SB.m_url SB.m_buffer] | ].
+  (* the common start: the standard's machine by its fields *)
+  Ltac start mm sm Hst Hs Hp He Hlo Hhi Hb :=
+    let Hfl := fresh "Hfl" in
+    intros mm sm Hst [Hs Hp He Hlo Hhi Hfl Hb];
+    rewrite Hst in Hs, Hb; cbn [st_map] in Hs; cbn [st_rel] in Hb;
+    destruct sm as [su sst sbuf sa sbr spw sp]; destruct Hfl as [Hf1 [Hf2 Hf3]];
+    cbn [SB.m_url SB.m_state SB.m_buffer SB.m_pointer SB.m_atSignSeen SB.m_insideBrackets
+         SB.m_passwordTokenSeen] in Hs, Hp, Hf1, Hf2, Hf3, Hb;
+    subst sst sp;
+    unfold mstep, sstep, step, SB.step;
+    cbn [SB.m_url SB.m_state SB.m_buffer SB.m_pointer SB.m_atSignSeen SB.m_insideBrackets
+         SB.m_passwordTokenSeen];
+    rewrite Hst; cbv beta iota zeta; rewrite He.
 
   (* ---------------------------------------------------------------- *)
   (* path or authority state                                           *)
   (* ---------------------------------------------------------------- *)
   Theorem sim_path_or_authority : sim_for (fun st => st = PathOrAuthority).
   Proof.
-    intros mm sm Hst [Hs Hp He Hlo Hhi Hfl Hb].
-    rewrite Hst in Hs, Hb. cbn [st_map] in Hs. cbn [st_rel] in Hb.
-    destruct Hb as [Hbuf [Hsb [HR Hlp]]].
-    unfold mstep, sstep, step, SB.step. rewrite Hst, <- Hs. cbv beta iota zeta. rewrite He, Hp.
+    start mm sm Hst Hs Hp He Hlo Hhi Hb.
+    destruct Hb as [Hbuf [Hsb [HR Hlp]]]. subst sbuf. rewrite Hbuf.
     set (p := (m_ptr mm + 1)%Z).
     unfold SB.path_or_authority_state.
-    destruct sm as [su sst sbuf sa sbr spw sp]. destruct Hfl as [Hf1 [Hf2 Hf3]].
-    cbn [SB.m_url SB.m_state SB.m_buffer SB.m_pointer SB.m_atSignSeen SB.m_insideBrackets SB.m_passwordTokenSeen] in *.
-    subst sbuf sst. rewrite Hbuf.
     destruct (n_inp inp <=? p)%Z eqn:En.
-    - unfold input. rewrite here_eof by lia. cbn [SB.c_of hd_error SB.c_is].
+    - unfold input.
+      rewrite here_eof by zl. cbn [SB.c_of hd_error SB.c_is].
       change (rune_error =? 47) with false. cbv iota.
       after.
-      + repeat split; [constructor|exact HR|exact Hlp].
+      + split; [reflexivity|]. split; [constructor|]. split; [exact HR|exact Hlp].
       + discriminate.
-    - unfold input. rewrite (here_cons inp p) by lia. cbn [SB.c_of hd_error SB.c_is].
+    - unfold input. rewrite (here_cons inp p) by zl. cbn [SB.c_of hd_error SB.c_is].
       set (r := cp_at inp p).
       destruct (r =? 47) eqn:E47.
       + after.
-        * cbn [length]. repeat split; [constructor|lia|exact HR|exact Hlp].
+        * cbn [length]. split; [reflexivity|]. split; [constructor|]. split; [zl|]. split; [exact HR|exact Hlp].
         * discriminate.
       + after.
-        * repeat split; [constructor|exact HR|exact Hlp].
+        * split; [reflexivity|]. split; [constructor|]. split; [exact HR|exact Hlp].
         * discriminate.
   Qed.
+
+  (* ---------------------------------------------------------------- *)
+  (* special authority ignore slashes state                            *)
+  (* ---------------------------------------------------------------- *)
+  Theorem sim_special_authority_ignore_slashes : sim_for (fun st => st = SpecialAuthorityIgnoreSlashes).
+  Proof.
+    start mm sm Hst Hs Hp He Hlo Hhi Hb.
+    destruct Hb as [Hbuf [Hsb [HR Hlp]]]. subst sbuf. rewrite Hbuf.
+    set (p := (m_ptr mm + 1)%Z).
+    unfold SB.special_authority_ignore_slashes_state.
+    destruct (n_inp inp <=? p)%Z eqn:En.
+    - unfold input. rewrite here_eof by zl. cbn [SB.c_of hd_error SB.c_is].
+      change (rune_error =? 47) with false. change (rune_error =? 92) with false. cbn [negb andb].
+      after.
+      + cbn [length]. split; [reflexivity|]. split; [constructor|]. split; [zl|]. split; [exact HR|exact Hlp].
+      + discriminate.
+    - unfold input. rewrite (here_cons inp p) by zl. cbn [SB.c_of hd_error SB.c_is].
+      set (r := cp_at inp p).
+      destruct (negb (r =? 47) && negb (r =? 92)) eqn:E.
+      + after.
+        * cbn [length]. split; [reflexivity|]. split; [constructor|]. split; [zl|]. split; [exact HR|exact Hlp].
+        * discriminate.
+      + rewrite mherr_warn by exact Hfail. after.
+        * split; [reflexivity|]. split; [reflexivity|]. split; [apply R_noted; exact HR|exact Hlp].
+        * discriminate.
+  Qed.
+
+  (* ---------------------------------------------------------------- *)
+  (* special authority slashes state                                   *)
+  (* ---------------------------------------------------------------- *)
+  (* a second '/' after the pointer: the pointer + 1 is inside the input *)
+  Lemma second_slash p : SB.starts_with (SB.substring_from input (p + 1)) [47] = true -> (p + 1 < n_inp inp)%Z.
+  Proof.
+    intros H. destruct (n_inp inp <=? p + 1)%Z eqn:E; [|lia].
+    unfold input in H. rewrite here_eof in H by lia. discriminate H.
+  Qed.
+
+  Theorem sim_special_authority_slashes : sim_for (fun st => st = SpecialAuthoritySlashes).
+  Proof.
+    start mm sm Hst Hs Hp He Hlo Hhi Hb.
+    destruct Hb as [Hbuf [Hsb [HR Hlp]]]. subst sbuf. rewrite Hbuf.
+    set (p := (m_ptr mm + 1)%Z).
+    unfold SB.special_authority_slashes_state.
+    destruct (n_inp inp <=? p)%Z eqn:En.
+    - unfold input. rewrite here_eof by zl. cbn [SB.c_of hd_error SB.c_is].
+      change (rune_error =? 47) with false. cbn [andb].
+      rewrite mherr_warn by exact Hfail. after.
+      + split; [reflexivity|]. split; [reflexivity|]. split; [apply R_noted; exact HR|exact Hlp].
+      + discriminate.
+    - rewrite (remainingStartsWith_spec inp p) by zl.
+      unfold input. rewrite (here_cons inp p) by zl. cbn [SB.c_of hd_error SB.c_is SB.remaining tl].
+      set (r := cp_at inp p).
+      destruct ((r =? 47) && SB.starts_with (SB.substring_from (map rv inp) (p + 1)) [47]) eqn:E.
+      + apply andb_true_iff in E. destruct E as [_ E]. apply second_slash in E.
+        replace (n_inp inp <=? p + 1)%Z with false by zl.
+        after.
+        * split; [reflexivity|]. split; [reflexivity|]. split; [exact HR|exact Hlp].
+        * discriminate.
+      + rewrite mherr_warn by exact Hfail. after.
+        * split; [reflexivity|]. split; [reflexivity|]. split; [apply R_noted; exact HR|exact Hlp].
+        * discriminate.
+  Qed.
+
+  (* ---------------------------------------------------------------- *)
+  (* special relative or authority state                               *)
+  (* ---------------------------------------------------------------- *)
+  Theorem sim_special_relative_or_authority : sim_for (fun st => st = SpecialRelativeOrAuthority).
+  Proof.
+    start mm sm Hst Hs Hp He Hlo Hhi Hb.
+    destruct Hb as [Hbuf [Hsb [HR [Hlp Hbnf]]]]. subst sbuf. rewrite Hbuf.
+    set (p := (m_ptr mm + 1)%Z).
+    unfold SB.special_relative_or_authority_state.
+    destruct (n_inp inp <=? p)%Z eqn:En.
+    - unfold input. rewrite here_eof by zl. cbn [SB.c_of hd_error SB.c_is].
+      change (rune_error =? 47) with false. cbn [andb].
+      rewrite mherr_warn by exact Hfail. after.
+      + split; [reflexivity|]. split; [reflexivity|]. split; [apply R_noted; exact HR|]. split; [exact Hlp|exact Hbnf].
+      + discriminate.
+    - rewrite (remainingStartsWith_spec inp p) by zl.
+      unfold input. rewrite (here_cons inp p) by zl. cbn [SB.c_of hd_error SB.c_is SB.remaining tl].
+      set (r := cp_at inp p).
+      destruct ((r =? 47) && SB.starts_with (SB.substring_from (map rv inp) (p + 1)) [47]) eqn:E.
+      + apply andb_true_iff in E. destruct E as [_ E]. apply second_slash in E.
+        replace (n_inp inp <=? p + 1)%Z with false by zl.
+        after.
+        * split; [reflexivity|]. split; [reflexivity|]. split; [exact HR|exact Hlp].
+        * discriminate.
+      + rewrite mherr_warn by exact Hfail. after.
+        * split; [reflexivity|]. split; [reflexivity|]. split; [apply R_noted; exact HR|]. split; [exact Hlp|exact Hbnf].
+        * discriminate.
+  Qed.
+
+  (* ---------------------------------------------------------------- *)
+  (* relative slash state                                              *)
+  (* ---------------------------------------------------------------- *)
+  Theorem sim_relative_slash : sim_for (fun st => st = RelativeSlash).
+  Proof.
+    start mm sm Hst Hs Hp He Hlo Hhi Hb.
+    destruct Hb as [Hbuf [Hsb [HR [Hlp Hsome]]]]. subst sbuf. rewrite Hbuf.
+    set (p := (m_ptr mm + 1)%Z).
+    unfold SB.relative_slash_state, SB.special. cbn [SB.m_url].
+    rewrite (R_special c _ su Hspecial HR).
+    (* the third step: the authority of the base *)
+    assert (G : out_rel inp (is_some override) sbase
+      match base with
+      | Some b => Cont (mk PathSt (p - 1) false [] (m_at mm) (m_br mm) (m_pw mm) (copy_base_auth (m_url mm) b))
+      | None => Panic
+      end
+      match sbase with
+      | Some b =>
+          SB.SCont (SB.decrease_pointer (SB.set_state (SB.set_url (SB.mkM su SB.RelativeSlashState [] sa sbr spw p)
+            (SU.with_port (SU.with_host (SU.with_password (SU.with_username su (SU.u_username b)) (SU.u_password b))
+                                        (SU.u_host b)) (SU.u_port b))) SB.PathState) 1)
+      | None => SB.SBug
+      end).
+    { destruct sbase as [sb|]; [|congruence]. destruct base as [b|]; [|contradiction Hbase].
+      cbn [base_rel] in Hbase. after.
+      - split; [reflexivity|]. split; [constructor|]. split; [apply R_copy_base_auth; assumption|].
+        destruct su; exact Hlp.
+      - discriminate. }
+    destruct (n_inp inp <=? p)%Z eqn:En.
+    - unfold input. rewrite here_eof by zl. cbn [SB.c_of hd_error SB.c_is].
+      change (rune_error =? 47) with false. change (rune_error =? 92) with false.
+      cbn [orb]. rewrite andb_false_r. exact G.
+    - unfold input. rewrite (here_cons inp p) by zl. cbn [SB.c_of hd_error SB.c_is].
+      set (r := cp_at inp p).
+      destruct (SU.url_is_special su && ((r =? 47) || (r =? 92))) eqn:E.
+      + destruct (r =? 92); rewrite ?mherr_warn by exact Hfail; after.
+        * split; [reflexivity|]. split; [reflexivity|]. split; [apply R_noted; exact HR|exact Hlp].
+        * discriminate.
+        * split; [reflexivity|]. split; [reflexivity|]. split; [exact HR|exact Hlp].
+        * discriminate.
+      + destruct (r =? 47) eqn:E47.
+        * after.
+          -- cbn [length]. split; [reflexivity|]. split; [constructor|]. split; [zl|]. split; [exact HR|exact Hlp].
+          -- discriminate.
+        * exact G.
+  Qed.
+
+  (* ---------------------------------------------------------------- *)
+  (* path start state                                                  *)
+  (* ---------------------------------------------------------------- *)
+  Theorem sim_path_start : sim_for (fun st => st = PathStart).
+  Proof.
+    start mm sm Hst Hs Hp He Hlo Hhi Hb.
+    destruct Hb as [Hbuf [Hsb [HR Hlp]]]. subst sbuf. rewrite Hbuf.
+    set (p := (m_ptr mm + 1)%Z).
+    unfold SB.path_start_state, SB.override_given, overridden. rewrite is_some_map'. cbn [SB.m_url].
+    rewrite Hskip. cbn [negb]. rewrite andb_true_r.
+    rewrite (R_special c _ su Hspecial HR).
+    destruct (n_inp inp <=? p)%Z eqn:En.
+    - (* the EOF code point *)
+      unfold input. rewrite here_eof by zl. cbn [SB.c_of hd_error SB.c_is SB.c_is_eof].
+      change (rune_error =? 47) with false. change (rune_error =? 92) with false.
+      change (rune_error =? 63) with false. change (rune_error =? 35) with false.
+      rewrite !andb_false_r. cbn [negb andb].
+      destruct (SU.url_is_special su) eqn:Esp.
+      + after.
+        * split; [reflexivity|]. split; [constructor|]. split; [exact HR|exact Hlp].
+        * discriminate.
+      + rewrite (R_host_none _ _ HR).
+        destruct (is_some override && negb (is_some (SU.u_host su))) eqn:Eo.
+        * destruct (list_path_inv su Hlp) as [segs Hsegs].
+          unfold SB.append_segment. rewrite Hsegs.
+          pose proof (R_addSegment (m_url mm) su segs [] HR Hsegs) as HR'.
+          change (encode_runes []) with (@nil N) in HR'.
+          unfold addSegment. after.
+          -- split; [reflexivity|]. split; [reflexivity|]. split; [exact HR'|reflexivity].
+          -- intros _. exact HR'.
+        * after.
+          -- split; [reflexivity|]. split; [reflexivity|]. split; [exact HR|exact Hlp].
+          -- intros _. exact HR.
+    - (* a code point *)
+      unfold input. rewrite (here_cons inp p) by zl. cbn [SB.c_of hd_error SB.c_is SB.c_is_eof].
+      set (r := cp_at inp p). cbn [negb].
+      destruct (SU.url_is_special su) eqn:Esp.
+      + destruct (r =? 92) eqn:E92; rewrite ?mherr_warn by exact Hfail;
+          destruct (negb (r =? 47)) eqn:E47; cbn [negb andb]; after.
+        * split; [reflexivity|]. split; [constructor|]. split; [apply R_noted; exact HR|exact Hlp].
+        * discriminate.
+        * split; [reflexivity|]. split; [constructor|]. split; [apply R_noted; exact HR|exact Hlp].
+        * discriminate.
+        * split; [reflexivity|]. split; [constructor|]. split; [exact HR|exact Hlp].
+        * discriminate.
+        * split; [reflexivity|]. split; [constructor|]. split; [exact HR|exact Hlp].
+        * discriminate.
+      + destruct (negb (is_some override) && (r =? 63)) eqn:E63.
+        { after.
+          - exists []. split; [reflexivity|]. split; [reflexivity|]. split; [reflexivity|].
+            apply R_Rq. apply (R_set_query _ _ (Some [])). exact HR.
+          - discriminate. }
+        destruct (negb (is_some override) && (r =? 35)) eqn:E35.
+        { after.
+          - exists []. split; [reflexivity|]. split; [reflexivity|].
+            apply R_Rf. apply (R_set_fragment _ _ (Some [])). exact HR.
+          - discriminate. }
+        destruct (negb (r =? 47)) eqn:E47; after.
+        * split; [reflexivity|]. split; [constructor|]. split; [exact HR|exact Hlp].
+        * discriminate.
+        * split; [reflexivity|]. split; [constructor|]. split; [exact HR|exact Hlp].
+        * discriminate.
+  Qed.
+
+  (* ---------------------------------------------------------------- *)
+  (* port state                                                        *)
+  (* ---------------------------------------------------------------- *)
+  Lemma isDigit_eof : isDigit rune_error = false.
+  Proof. rewrite digit_table. reflexivity. Qed.
+
+  Lemma enc_rune_single r : utf8_enc r = encode_runes [r].
+  Proof. unfold encode_runes. cbn [flat_map]. rewrite app_nil_r. reflexivity. Qed.
+
+  Lemma with_port_default su port :
+    (if opt_eqb N.eqb (SU.u_port (SU.with_port su (Some port)))
+          (SU.default_port (SU.u_scheme (SU.with_port su (Some port))))
+     then SU.with_port (SU.with_port su (Some port)) None else SU.with_port su (Some port))
+    = SU.with_port su (if opt_eqb N.eqb (Some port) (SU.default_port (SU.u_scheme su)) then None else Some port).
+  Proof.
+    destruct su as [sc us pw h po pa q f]. cbn [SU.with_port SU.u_port SU.u_scheme SU.u_username SU.u_password
+      SU.u_host SU.u_path SU.u_query SU.u_fragment].
+    destruct (opt_eqb N.eqb (Some port) (SU.default_port sc)); reflexivity.
+  Qed.
+
+  Theorem sim_port : sim_for (fun st => st = PortSt).
+  Proof.
+    start mm sm Hst Hs Hp He Hlo Hhi Hb.
+    destruct Hb as [Hbuf [Hdig [HR Hlp]]].
+    set (p := (m_ptr mm + 1)%Z).
+    unfold SB.port_state, SB.ends_authority, SB.special, SB.override_given, overridden, isSpecialSchemeAndBackslash.
+    rewrite is_some_map'. cbn [SB.m_url SB.m_buffer]. cbv zeta.
+    rewrite (R_special c _ su Hspecial HR).
+    pose proof (digits_ascii sbuf Hdig) as Hasc.
+    rewrite (enc_runes_ascii sbuf Hasc) in Hbuf. rewrite Hbuf. clear Hbuf.
+    rewrite (digits_val_spec sbuf Hdig).
+    set (port := S4.to_number 10 sbuf).
+    set (M0 := SB.mkM su SB.PortState sbuf sa sbr spw p).
+    (* step 2 of the standard's port state *)
+    assert (G : out_rel inp (is_some override) sbase
+      (if negb (is_nil sbuf) then
+         (if 65535 <? port then (fun k => mherr c (m_url mm) PortOutOfRange true k) else (fun k => k (m_url mm)))
+           (fun u => if is_some override
+                     then RetUrl (cleanDefaultPort c (set_port u (Some (itoa port)) port))
+                     else Cont (mk PathStart (p - 1) false [] (m_at mm) (m_br mm) (m_pw mm)
+                                   (cleanDefaultPort c (set_port u (Some (itoa port)) port))))
+       else if is_some override
+            then mherr c (m_url mm) PortMissing true
+                   (fun u => if is_some override then RetUrl u
+                             else Cont (mk PathStart (p - 1) false sbuf (m_at mm) (m_br mm) (m_pw mm) u))
+            else if is_some override then RetUrl (m_url mm)
+                 else Cont (mk PathStart (p - 1) false sbuf (m_at mm) (m_br mm) (m_pw mm) (m_url mm)))
+      match (if negb (is_nil sbuf)
+             then if 65535 <? port then None
+                  else Some (SB.set_buffer (SB.set_url M0
+                         (SU.with_port su (if opt_eqb N.eqb (Some port) (SU.default_port (SU.u_scheme su))
+                                           then None else Some port))) [])
+             else Some M0) with
+      | Some m => if is_some override then SB.SRet (SB.m_url m)
+                  else SB.SCont (SB.decrease_pointer (SB.set_state m SB.PathStartState) 1)
+      | None => SB.SFail su
+      end).
+    { destruct (is_nil sbuf) eqn:Enil; cbn [negb].
+      - (* the buffer is empty *)
+        assert (sbuf = []) by (destruct sbuf; [reflexivity|discriminate Enil]). subst sbuf.
+        destruct (is_some override) eqn:Eov.
+        + match goal with |- context [mherr c ?u ?t true ?k] => destruct (mherr_fatal c u t k) as [e ->] end.
+          cbn [out_rel]. unfold M0. sb_simpl. split; [reflexivity|apply R_noted; exact HR].
+        + unfold M0. after.
+          * split; [reflexivity|]. split; [reflexivity|]. split; [exact HR|exact (Hlp eq_refl)].
+          * discriminate.
+      - (* a port number *)
+        destruct (65535 <? port) eqn:Eport.
+        + match goal with |- context [mherr c ?u ?t true ?k] => destruct (mherr_fatal c u t k) as [e ->] end.
+          cbn [out_rel]. apply R_noted. exact HR.
+        + cbv beta.
+          pose proof (R_set_port (m_url mm) su (Some port) port HR) as HR1.
+          cbn [option_map] in HR1. rewrite <- itoa_bytes in HR1.
+          pose proof (R_cleanDefaultPort c _ _ Hspecial HR1) as HR2.
+          rewrite with_port_default in HR2.
+          destruct (is_some override) eqn:Eov.
+          * cbn [out_rel]. unfold M0. sb_simpl. exact HR2.
+          * unfold M0. after.
+            -- split; [reflexivity|]. split; [reflexivity|]. split; [exact HR2|].
+               pose proof (Hlp eq_refl) as L. destruct su; exact L.
+            -- discriminate. }
+    subst M0.
+    destruct (n_inp inp <=? p)%Z eqn:En.
+    - (* the EOF code point *)
+      unfold input. rewrite here_eof by zl. cbn [SB.c_of hd_error SB.c_is SB.c_is_eof].
+      rewrite isDigit_eof. cbn [orb]. exact G.
+    - (* a code point *)
+      unfold input. rewrite (here_cons inp p) by zl. cbn [SB.c_of hd_error SB.c_is SB.c_is_eof].
+      set (r := cp_at inp p). rewrite digit_table.
+      destruct (ascii_digit r) eqn:Ed.
+      + (* a digit *)
+        after.
+        * split.
+          { rewrite enc_runes_app, (enc_runes_ascii sbuf Hasc), (enc_rune_single r). reflexivity. }
+          split; [rewrite forallb_app, Hdig; cbn [forallb]; rewrite Ed; reflexivity|].
+          split; [exact HR|exact Hlp].
+        * discriminate.
+      + cbn [orb].
+        destruct ((r =? 47) || (r =? 63) || (r =? 35) || SU.url_is_special su && (r =? 92) || is_some override) eqn:Et.
+        * exact G.
+        * match goal with |- context [mherr c ?u ?t true ?k] => destruct (mherr_fatal c u t k) as [e ->] end.
+          cbn [out_rel]. apply R_noted. exact HR.
+  Qed.
+
 End States.
 
 Print Assumptions sim_path_or_authority.
+Print Assumptions sim_special_authority_ignore_slashes.
+Print Assumptions sim_special_authority_slashes.
+Print Assumptions sim_special_relative_or_authority.
+Print Assumptions sim_relative_slash.
+Print Assumptions sim_path_start.
+Print Assumptions sim_port.
+
+(* the premises hold: the default configuration is standard, and no base is related to no base *)
+Example sim_port_default idna_raw inp base sbase override :
+  step_sim_for idna_raw default_cfg inp base sbase override (fun st => st = PortSt).
+Proof. exact (sim_port idna_raw default_cfg std_cfg_default inp base sbase override). Qed.
+
+Example sim_relative_slash_default idna_raw inp override :
+  step_sim_for idna_raw default_cfg inp None None override (fun st => st = RelativeSlash).
+Proof. exact (sim_relative_slash idna_raw default_cfg std_cfg_default inp None None I override). Qed.
+
+Check sim_port.
+Check sim_path_start.
+Check sim_path_or_authority.
+Check sim_special_relative_or_authority.
+Check sim_special_authority_slashes.
+Check sim_special_authority_ignore_slashes.
+Check sim_relative_slash.
